@@ -30,6 +30,9 @@ MUTATORS = {"append", "extend", "insert", "pop", "remove", "clear", "update", "a
             "__delitem__"}
 MUTABLE_CALLS = {"dict", "list", "set", "defaultdict", "OrderedDict", "deque", "Counter"}
 COPY_CALLS = {"list", "dict", "set", "tuple", "sorted", "copy", "deepcopy", "frozenset", "OrderedDict"}
+# what StructMeta.__new__ computes: rebinding one of these after definition rewrites the definition
+STRUCT_DEF_ATTRS = {"_required", "_optional", "_fields", "_field_by_name", "_constants", "__signature__",
+                    "__annotations__"}
 BASE_HINTS = ("__mro__", "__bases__", "__base__", "mro")
 
 
@@ -138,7 +141,7 @@ class Scan:
 
     # ------------------------------------------------------------------ helpers
     def add(self, file, name, site, kind, key, after):
-        k = (name, kind)
+        k = (name, kind, site) if kind == "inPlaceClassAttr" else (name, kind)   # one row per in-place write SITE
         if k in self.rows:
             r = self.rows[k]
             r["writtenAfterDef"] = r["writtenAfterDef"] or after
@@ -243,7 +246,7 @@ class Scan:
         self.pass_lru()
         self.pass_class_attr_writes()
         self.pass_inplace()
-        return sorted(self.rows.values(), key=lambda r: (r["file"], r["name"], r["kind"]))
+        return sorted(self.rows.values(), key=lambda r: (r["file"], r["name"], r["kind"], r["site"]))
 
     def registry_ref(self, e):
         """name of the module-/class-level object an expression refers to, if any"""
@@ -347,6 +350,21 @@ class Scan:
                     self.add(f.file, f.name, f.qual, "lruCache", key, True)
 
     def pass_class_attr_writes(self):
+        def_attrs = self.definition_attrs()
+        plain_add = self.add
+
+        def add(file, name, site, kind, key, after):
+            # rebinding a DEFINITION attribute of a class after its definition rewrites the definition
+            if name.startswith("cls.") and name[4:] in STRUCT_DEF_ATTRS:
+                kind = "inPlaceClassAttr"
+            plain_add(file, name, site, kind, key, after)
+        self.add = add
+        try:
+            self._pass_class_attr_writes()
+        finally:
+            self.add = plain_add
+
+    def _pass_class_attr_writes(self):
         for f in self.funcs:
             if self.is_definition_time(f):
                 continue
